@@ -130,8 +130,15 @@ PROPS = {
         "assumptions": ["sinks obey the documented Write contract"],
     },
     "C03": {
-        "lean_modules": ["AvroProofs.C03"],
-        "theorems": [],
+        "lean_modules": ["AvroProofs.C03", "AvroProofs.C01"],
+        "theorems": ["Avro.C03.failed_append_no_trace", "Avro.C03.history_layout", "Avro.C03.history_read", "Avro.C01.decode_encode"],
+        "partial": [
+            {"theorem": "Avro.C03.history_read",
+             "excluded_by": "RunOk (append_to only on an output that already has its header and after the previous writer was finished); the "
+                            "codec round trip is a hypothesis (C15); decodability of each appended encoding is the hypothesis hdec, discharged by "
+                            "C01.decode_encode for conforming values; the header's own read-back (metadata/schema) is checked by the correspondence run, "
+                            "not yet proved"},
+        ],
         "harness": c03_runs,
         "projection": "okerr",
         "nontrivial": lambda l: l.count("(ap ") + l.count("(fl)") >= 2 or l.startswith("rdfile"),
